@@ -109,9 +109,21 @@ impl<T: Qcow2IoOps> Qcow2Dev<T> {
         {
             Some(to_kill) => {
                 log::warn!("add_l2_slice: cache eviction, slices {}", to_kill.len());
+
+                // The victims are still visible in the cache: keep them
+                // read-locked from before the refcount flush until they are
+                // written, so that no mapping can be added in between whose
+                // cluster's refcount isn't on disk yet
+                let mut guards = Vec::new();
+                for (_, e) in to_kill.iter() {
+                    guards.push(e.value().read().await);
+                }
+
                 // figure exact dependency on refcount cache & reftable entries
                 self.flush_refcount().await?;
-                self.flush_cache_entries(to_kill).await
+                let res = self.flush_cache_entries(to_kill).await;
+                drop(guards);
+                res
             }
             _ => Ok(()),
         }
